@@ -543,7 +543,7 @@ def _scale_one(cfg, J, J0, F, dtype, res):
                 res["nontrivial"] += 1
             r = err / tol
             res["maxima"][okey] = max(res["maxima"].get(okey, 0.0), r)
-            if err > tol:
+            if not (err <= tol):  # NaN-safe
                 res["viol"].append(dict(sig=f"homogeneity:{name}:{dtype}:scale={_fmt(t)}", msg=f"{desc} err/tol={r:.3g}"[:600]))
         if stable:
             res["outcomes"].add(digest([key, dtype, si, np.round(x0 / s, 5).tolist()]))
